@@ -176,6 +176,9 @@ def decide(res, pr, bad, lines, exe, gen_status):
 
 def replay(path):
     r = json.load(open(path))
+    if r.get("kind") == "queueswap-case":
+        import C19
+        return C19.replay(path)
     if r.get("kind", "").startswith("broker") or r.get("kind") in ("correspondence",):
         import brokercheck, monitors
         return brokercheck.replay(path, monitors.monitor_c03)
@@ -204,3 +207,5 @@ def run(res):
     res.cov["traces_validated_against_impl"] += ring_cov.get("traces_validated_against_impl", 0)
     res.cov["rule"] = "ring: " + ring_cov.get("rule", "") + " || broker: " + res.cov["rule"]
     res.cov["obligations"] = res.cov["obligations"] // 2 if False else res.cov["obligations"]
+    # order must also hold when the queue is deeper than its in-memory limit: the overflow / reload path of queue.go
+    vlib.also_run(res, "C19", why="queue/queue.go is among C03's anchors: order across the in-memory limit and the reload from the store")
